@@ -133,7 +133,7 @@ impl Format for Blp {
                 }
             }
         }
-        if crate::thorough() && !crate::LIGHT.load(std::sync::atomic::Ordering::Relaxed) {
+        if crate::heavy() {
             // the path-based loader: the file plus, for BLP0, its mip level files next to it
             let path = _scratch.join("t.blp");
             if std::fs::write(&path, input).is_ok() {
